@@ -341,9 +341,11 @@ def setup_asyncio():
 
 def run_loop(loop, n=6):
     """let scheduled callbacks (future done-callbacks, call_soon) run; timers in the future are left alone"""
-    for _ in range(n):
+    for i in range(400):
         loop.call_soon(loop.stop)
         loop.run_forever()
+        if i + 1 >= n and not loop._ready:
+            break
 
 
 def patch_env_aio(sx, fixed_rnd=True):
